@@ -747,3 +747,22 @@ Fixpoint handler_prog (users : list user) (table : list (string * (string * list
       | Some (ds, _) => run_decos users ds arg w (prog_body users progs (handler_prog users table progs f) name arg d appe)
       end
   end.
+
+(* ------------------------------------------------------------------ what a transfer handler schedules *)
+(* the statements a handler runs before its first reply: for LIST / MLSD / RETR / STOR this is path resolution
+   (+ STOR's parent probe) and the scheduling of the worker.  [scheduled] returns the world after them and the
+   worker closure that will be run LATER, when the data connection arrives -- in whatever world that is *)
+Fixpoint before_reply (l : list hstmt) : list hstmt :=
+  match l with
+  | [] => []
+  | HReply _ _ :: _ => []
+  | x :: r => x :: before_reply r
+  end.
+
+Definition scheduled (users : list user) (self : string -> text -> dataact -> bool -> world -> result)
+           (p : hprog) (arg : text) (d : dataact) (appe : bool) (w : world)
+  : option (world * option (world -> world * out)) :=
+  match exec_block users self arg d (param_vals p appe) (before_reply (hp_body p)) (init_state w) with
+  | Next st => Some (st_w st, st_spawn st)
+  | _ => None
+  end.
